@@ -321,7 +321,9 @@ GotoKids == SetF([F EXCEPT !.st = "kids", !.j = 1, !.c = F.i + 1])
 GotoUndef == SetF([F EXCEPT !.st = "undef", !.j = Len(It.def)])
 
 \* i18n:translate applies to static content only (not with tal:content / tal:replace)
-Translating(it) == it.tr.m = "yes" /\ it.sub.m = "none"
+\* (with tal:content the children are the text only when the expression gives `default`: they are translated then;
+\* any other value is itself offered as the message id -- CTrans)
+Translating(it) == it.tr.m = "yes" /\ it.sub.m \in {"none", "content"}
 
 TagShown == It.tag = "el" /\ (It.omit.m = "no" \/ (It.omit.m = "expr" /\ ~cells[COmit(F.i)].b))
 
@@ -364,6 +366,9 @@ ATrans(i, st, dy, v) ==
 StaticOf(it, key) == IndexOfKey(it.sattr, key)
 \* n: which call of this evaluation of the site's expression (the same call may be written several times in one expression)
 EvLog(site, a) == [n \in 1..Len(a.ev) |-> [ev |-> "call", k |-> a.ev[n].k, r |-> a.ev[n].r, site |-> site, act |-> Act, n |-> n]]
+                  \o (IF site.s = "sub" /\ items[site.i].sub.m = "content" /\ items[site.i].tr.m = "yes" /\ ~IsExc(a.r) /\ a.r # VDefault
+                      THEN << [ev |-> "ctrans", v |-> a.r, d |-> mx.i18n.d, c |-> mx.i18n.c, t |-> mx.i18n.t, site |-> site, act |-> Act] >>
+                      ELSE <<>>)
                   \o (IF site.s \in {"sub", "attr", "text", "oe"} /\ IsMsg(a.r)
                       THEN << [ev |-> "offer", d |-> mx.i18n.d, c |-> mx.i18n.c, t |-> mx.i18n.t, site |-> site, act |-> Act] >>
                       ELSE <<>>)
@@ -751,8 +756,12 @@ SCont ==    \* tal:content via _make_content_node (default -> the children)
           /\ mx' = IF Translating(It) THEN [mx EXCEPT !.tr = Append(mx.tr, [mark |-> Len(out), names |-> <<>>])] ELSE mx
      ELSE LET K(v) == /\ ctl' = IF v = VDefault THEN GotoKids ELSE Goto("etag")
                       /\ out' = IF v = VDefault \/ v = VNone THEN out
-                                ELSE Append(out, ValAtom(v, IF It.sub.s THEN "struct" ELSE "text", F.i))
-                      /\ UNCHANGED <<envs, glob, rep, cells, mx>>
+                                ELSE Append(out, IF It.tr.m = "yes"
+                                                 THEN [tr |-> TRUE] @@ ValAtom(v, IF It.sub.s THEN "struct" ELSE "text", F.i)
+                                                 ELSE ValAtom(v, IF It.sub.s THEN "struct" ELSE "text", F.i))
+                      /\ mx' = IF v = VDefault /\ It.tr.m = "yes"
+                               THEN [mx EXCEPT !.tr = Append(mx.tr, [mark |-> Len(out), names |-> <<>>])] ELSE mx
+                      /\ UNCHANGED <<envs, glob, rep, cells>>
           IN EvalAt(Site(F.i, "sub", 0), It.sub.e, K)
   /\ UNCHANGED <<pid, res>>
 
